@@ -339,6 +339,7 @@ func runC09(c *Ctx) {
 		}
 	}
 	runDeviceChains(c)
+	runDevicePaths(c)
 	// TTL option range on all six sockets
 	for _, s := range hopSites {
 		p := s.mk()
